@@ -8,6 +8,8 @@ Method: every Boolean test of the generated code is rewritten to a (decidable) p
 (`= exact`, `= exact - 2^64`, `= exact + 2^64`); `omega` does the rest.  No `bv_decide`.
 -/
 set_option maxRecDepth 2000
+set_option linter.unusedSimpArgs false
+set_option linter.unusedVariables false
 namespace CFastProofs
 open CFast Tagged CSem
 
